@@ -88,6 +88,16 @@ CHECKS.update({
         ref='3/C11'),
 })
 
+CHECKS.update({
+    'C12': dict(
+        technique='property-based testing of generated arrival schedules in the simulator with recorded jitter; oracle = per-(query,record) time windows + injective justification matching over the independently decoded trace',
+        text=SIM + 'schedules of 1-8 QM queries, peer sightings and truncated trains on a float-exact millisecond grid; every multicast answer must fall in a '
+             'window some query justifies (immediate / aggregated 20..500 ms / protected sighting+1 s..query+1.2 s), every requirement must be covered, no '
+             'duplicates; trains are assembled once per source after the recorded 400-500 ms hold with the union of known answers.',
+        note='sightings are the host\'s own perception; assembly instants observed by wrapping handle_assembled_query from the harness; train lower bounds lenient as stated in the evidence assumptions',
+        ref='3/C12'),
+})
+
 NOT_YET = {
 }
 
